@@ -285,11 +285,13 @@ def r4_pairing(ctx):
     if gi is None:
         raise AnalysisError('DataStreamProcessor.get_iterator not found')
     zips = []
-    for n in ast.walk(gi.node):
-        if isinstance(n, ast.Call):
-            en = ctx.res.external_name(n)
-            if en in ('itertools.zip_longest', 'builtins.zip'):
-                zips.append((n, en))
+    # the pairing may sit in get_iterator's closure or in a method it hands out (functools.partial): look in the whole class
+    for m_ in dsp.methods.values():
+        for n in ast.walk(m_.node):
+            if isinstance(n, ast.Call):
+                en = ctx.res.external_name(n)
+                if en in ('itertools.zip_longest', 'builtins.zip'):
+                    zips.append((n, en))
     pair = [z for z in zips if any('datapackage.resources' in u(a) for a in z[0].args)]
     if not pair:
         raise AnalysisError('get_iterator: pairing of self.datapackage.resources with the streams not found')
